@@ -131,8 +131,10 @@ def run(tier, seed, replay=None):
         res.violation("build", err, dict(kind="build"), False)
         return res.finish()
     thorough = tier == "thorough"
+    rp_data = {}
     if replay:
-        scripts = [json.load(open(replay))["script"]]
+        rp_data = json.load(open(replay))
+        scripts = [rp_data["script"]] if "script" in rp_data else []
     else:
         scripts = gen_scripts(seed, 3000 if thorough else 500)
     def view_of(sc, g):
@@ -186,6 +188,15 @@ def run(tier, seed, replay=None):
                 res.violation("correspondence:C07/script", "Go and the model disagree on script %s though C07 holds on Go's run: %s" % (
                     s["id"], "; ".join(d2[:4])), dict(kind="correspondence", correspondence="C07/acks", script=s, differences=d2[:10]), False)
     stress = []
+    if replay and "stress" in rp_data:
+        stress = [rp_data["stress"]]
+        sg, _ = cc.run_go(exe, stress, shards=1, test="TestVerifClientStress", timeout=900)
+        for rq, tr in zip(stress, sg):
+            evals += 1
+            for sig, text in (cc.judge_stress(tr)[PID.lower()] if tr else [("harness-run", "no trace")]):
+                if sig not in reported:
+                    reported.add(sig)
+                    res.violation(sig, "%s [stress %s]" % (text, rq.get("id")), dict(kind="stress", stress=rq))
     if not replay:
         rnd = random.Random(seed + 7)
         for i in range(8 if thorough else 3):
